@@ -704,6 +704,12 @@ func (t *TS) useInode(s *State, in ssa.Instruction, a AV, what string) {
 	if a.K != KInode && a.K != KISlice {
 		return
 	}
+	if a.K == KInode && a.Src != "" {
+		if _, rel := s.G.Cells["$rel:"+a.Src]; rel {
+			t.event("use", in, what, "", TxnSt{St: "released-early", Via: "ReleaseInode"}, true, nil)
+			return
+		}
+	}
 	for _, id := range a.Txns {
 		ts := s.G.Txns[id]
 		bad := ts.St != "live"
@@ -1017,6 +1023,7 @@ func (t *TS) call(s *State, call *ssa.Call) []*State {
 				s.G.Cells["$fh:"+args[1].Cell] = AV{K: KBool, B: true}
 			}
 			mayNil := callee == V.GetInodeFh || callee == V.GetInodeInum || callee == V.AllocInode
+			delete(s.G.Cells, "$rel:acq:"+t.c.P.Pos(call.Pos()))
 			s.Env[call] = AV{K: KInode, Txns: []string{id}, MayNil: mayNil, Src: "acq:" + t.c.P.Pos(call.Pos())}
 			return []*State{s}
 		case callee == V.GetInodeUnlocked:
@@ -1035,6 +1042,9 @@ func (t *TS) call(s *State, call *ssa.Call) []*State {
 				why = "early release of an inode that was not acquired at this site (" + ia.Src + "): the lock of an object the transaction already used is dropped before commit"
 			}
 			t.event("release", call, why, id, s.G.Txns[id], bad, map[string]string{"src": ia.Src})
+			if ia.K == KInode && strings.HasPrefix(ia.Src, "acq:") {
+				s.G.Cells["$rel:"+ia.Src] = AV{K: KBool, B: true}
+			}
 			return []*State{s}
 		}
 	}
